@@ -7,6 +7,7 @@ mod c09;
 mod c10;
 mod c14;
 mod c15;
+mod c16;
 mod c18;
 mod c20;
 mod c17reg;
@@ -28,6 +29,7 @@ fn main() {
         "c10" => c10::run(&cases),
         "c14" => c14::run(&cases),
         "c15" => c15::run(&cases),
+        "c16" => c16::run(&cases),
         "c18" => c18::run(&cases),
         "c20" => c20::run(&cases),
         "c12" | "c13" | "c17" | "ua" => ua::run(&cases),
